@@ -889,8 +889,46 @@ pub fn oracle_history(sink: &mut Sink, line: &str, file: &[u8], ops: &[String]) 
     }
 }
 
+/// C09 (count): neither iterator yields more points than the declared record count — for every cloud of the file
+pub fn oracle_counts(sink: &mut Sink, line: &str, file: &[u8]) {
+    let Ok(Ok(mut r)) = guarded(|| E57Reader::new(Cursor::new(file.to_vec()))) else { return };
+    let pcs = r.pointclouds();
+    for pc in pcs.iter().take(4) {
+        sink.oracle_evals += 1;
+        let lim = (pc.records.min(100_000) + 50) as usize;
+        // item by item, so that a panic after the surplus item does not hide the surplus
+        if let Ok(Ok(mut it)) = guarded(|| r.pointcloud_raw(pc)) {
+            let mut n = 0u64;
+            for _ in 0..lim {
+                match guarded(|| it.next()) {
+                    Ok(Some(Ok(_))) => n += 1,
+                    Ok(Some(Err(_))) => {}
+                    _ => break,
+                }
+            }
+            if n > pc.records {
+                sink.fail("C09", "reader/raw-yields-more-than-records", line, &format!("{n} items for recordCount {}", pc.records));
+            }
+        }
+        if let Ok(Ok(mut it)) = guarded(|| r.pointcloud_simple(pc)) {
+            let mut n = 0u64;
+            for _ in 0..lim {
+                match guarded(|| it.next()) {
+                    Ok(Some(Ok(_))) => n += 1,
+                    Ok(Some(Err(_))) => {}
+                    _ => break,
+                }
+            }
+            if n > pc.records {
+                sink.fail("C09", "reader/simple-yields-more-than-records", line, &format!("{n} items for recordCount {}", pc.records));
+            }
+        }
+    }
+}
+
 pub fn oracle(sink: &mut Sink, line: &str) {
     if let Some((file, ops)) = split_case(line) {
+        oracle_counts(sink, line, &file);
         let mut i = 0;
         while i < ops.len() {
             if ops[i] == "SIMPLE" && i + 3 < ops.len() {
@@ -1201,6 +1239,40 @@ pub fn generate(sink: &mut Sink, seed: u64, thorough: bool) {
             continue;
         }
         add_case(sink, &mut rng, &run.file, "norm_stress_file", true);
+    }
+    // 1c. narrow prototypes (C09 count, C05): every record narrower than a byte, so the zero padding that
+    //     completes the last byte of each stream decodes as further values — the iterators must stop at the
+    //     declared record count all the same
+    for k in 0..(if thorough { 120 } else { 24 }) {
+        let w = 1 + (k % 7) as i64; // bits per coordinate
+        let mut proto = vec![
+            Rec { name: RName::Std("cartesianX".into()), dt: DT::S(0, (1 << w) - 1, 0.5f64.to_bits(), 0f64.to_bits()) },
+            Rec { name: RName::Std("cartesianY".into()), dt: DT::S(0, (1 << w) - 1, 0.5f64.to_bits(), 0f64.to_bits()) },
+            Rec { name: RName::Std("cartesianZ".into()), dt: DT::I(0, (1 << w) - 1) },
+        ];
+        if k % 3 == 1 {
+            proto.push(Rec { name: RName::Std("intensity".into()), dt: DT::I(0, 1) });
+        }
+        if k % 5 == 2 {
+            proto.push(Rec { name: RName::Std("rowIndex".into()), dt: DT::I(5, 5) });
+        }
+        let n = 1 + rng.below(12) as usize;
+        let body: Vec<PcStmt> = (0..n)
+            .map(|_| {
+                PcStmt::P(proto.iter().map(|r| match &r.dt {
+                    DT::S(a, b, ..) => Val::S(rng.range(*a, *b)),
+                    DT::I(a, b) => Val::I(rng.range(*a, *b)),
+                    _ => Val::I(0),
+                }).collect())
+            })
+            .collect();
+        let prog = Program { guid: "narrow".into(), stmts: vec![Stmt::Pc { guid: "pc".into(), proto, body, end: true }, Stmt::Fin] };
+        let dev = crate::dev::SimDev::new(vec![]);
+        let run = execute(&prog, &dev);
+        if run.panicked || run.results.last().map(|s| s != "ok").unwrap_or(true) {
+            continue;
+        }
+        add_case(sink, &mut rng, &run.file, "narrow_prototype_file", true);
     }
     // 2. bundled test data (other producers: E57 reference implementation, libE57Format, LAS converter)
     for (name, bytes) in bundled_files(if thorough { 800_000 } else { 60_000 }) {
